@@ -25,7 +25,7 @@ type c15Case struct {
 }
 
 func recC15() *vkit.Recorder {
-	r := vkit.Rec("C15", "exploration", "rapid-generated jobs (scheme, path, params, simple relabeling) and target groups through the real TargetsDiscovery; metamorphic oracle: the hash multiset (ActiveTargets) and hash set (ActiveTargetsByHash) are invariant under permutation of targets and groups, moving a label between group and target, a repeated discovery round, a fresh TargetsDiscovery and fresh child processes; entries with equal final labels and URL collapse; a single-component edit (one label value, a param, the path, the scheme, the address) changes the hash; non-trivial = groups with >=2 targets and >=1 group label; distinct = digest of the case")
+	r := vkit.Rec("C15", "exploration", "rapid-generated jobs (scheme, path, params, simple relabeling) and target groups through the real TargetsDiscovery; metamorphic oracle: the hash multiset (ActiveTargets) and hash set (ActiveTargetsByHash) are invariant under permutation of targets and groups, moving a label between group and target, a repeated discovery round, a fresh TargetsDiscovery and fresh child processes; entries with equal final labels and URL collapse; writing the defaulted instance label out explicitly keeps the hash set; unit TestC15Explore: the real explorer probes still-held targets after a reload that adds params, the next discovery round must hash like a fresh process and the loaded configuration must be unmodified; a single-component edit (one label value, a param, the path, the scheme, the address) changes the hash; non-trivial = groups with >=2 targets and >=1 group label; distinct = digest of the case")
 	r.Assume("hash collisions (2^-64) are ignored")
 	return r
 }
@@ -47,7 +47,9 @@ func hashesOf(job *jobSpec, groups []grpSpec) (multi []uint64, set []uint64, des
 		for _, t := range ts {
 			multi = append(multi, t.ShardTarget.Hash)
 			// final label set = every label after relabeling (internal ones included, as for Prometheus' own target identity)
-			desc[t.ShardTarget.Hash] = t.ShardTarget.Labels.String() + " " + t.PromTarget.URL().String()
+			ls := t.ShardTarget.Labels.Copy()
+			sort.Sort(ls) // a label SET: the order the implementation keeps them in is not part of it
+			desc[t.ShardTarget.Hash] = ls.String() + " " + t.PromTarget.URL().String()
 		}
 	}
 	for h := range r.d.ActiveTargetsByHash() {
@@ -90,6 +92,39 @@ func pushDown(gs []grpSpec) []grpSpec {
 	return out
 }
 
+// explicitInstance gives every target that has no instance label the value Prometheus would default it to
+// (the address, completed with the scheme's port); only meaningful for jobs without relabel rules.
+func explicitInstance(gs []grpSpec, scheme string) ([]grpSpec, int) {
+	n := 0
+	var out []grpSpec
+	for _, g := range gs {
+		ng := grpSpec{Source: g.Source, Labels: g.Labels}
+		for _, t := range g.Targets {
+			nt := map[string]string{}
+			for k, v := range t {
+				nt[k] = v
+			}
+			_, inGroup := g.Labels["instance"]
+			if _, ok := nt["instance"]; !ok && !inGroup && nt["__address__"] != "" {
+				addr := nt["__address__"]
+				hasPort := strings.Contains(addr, ":") && !strings.HasSuffix(addr, "]")
+				if !hasPort {
+					if scheme == "https" {
+						addr += ":443"
+					} else {
+						addr += ":80"
+					}
+				}
+				nt["instance"] = addr
+				n++
+			}
+			ng.Targets = append(ng.Targets, nt)
+		}
+		out = append(out, ng)
+	}
+	return out, n
+}
+
 func eq(a, b []uint64) bool { return fmt.Sprint(a) == fmt.Sprint(b) }
 
 func runC15(rec *vkit.Recorder, c *c15Case) []vkit.Violation {
@@ -126,13 +161,21 @@ func runC15(rec *vkit.Recorder, c *c15Case) []vkit.Violation {
 		}
 		if !eq(set, s2) {
 			add("C15/hash-set-changed/"+name, "hash set %v became %v under %s", set, s2, name)
-		} else if name != "push-labels-down" && !eq(multi, m2) {
+		} else if name != "push-labels-down" && name != "explicit-instance" && !eq(multi, m2) {
 			add("C15/hash-multiset-changed/"+name, "hash multiset %v became %v under %s", multi, m2, name)
 		}
 	}
 	check("permutation", permuteGroups(c.Groups, c.Perm), &c.Job)
 	check("second-round", c.Groups, &c.Job)
 	check("push-labels-down", pushDown(c.Groups), &c.Job)
+	explicit := false
+	if len(c.Job.Rules) == 0 && len(set) > 0 {
+		if gs, n := explicitInstance(c.Groups, c.Job.Scheme); n > 0 {
+			// the instance label written out instead of defaulted: same final label sets, same URLs
+			check("explicit-instance", gs, &c.Job) // judged on the hash set
+			explicit = true
+		}
+	}
 
 	// single-component edits: every hash of a non-empty result must change when the component changes for all targets
 	if len(set) > 0 {
@@ -312,6 +355,9 @@ func runC15(rec *vkit.Recorder, c *c15Case) []vkit.Violation {
 	if len(set) < len(multi) {
 		cls = append(cls, "collapsed-across-groups")
 	}
+	if explicit {
+		cls = append(cls, "instance-written-out-instead-of-defaulted")
+	}
 	rec.Eval(nt, vkit.Digest(string(b)), cls...)
 	return vs
 }
@@ -389,6 +435,7 @@ func TestReplayC15(t *testing.T) {
 	if len(fails) > 0 {
 		t.Fatalf("%s", strings.Join(fails, "\n"))
 	}
+	replayC15Explore(t)
 }
 
 // ---- separate processes
